@@ -140,6 +140,7 @@ Explains(e) ==
       [] e.ev = "debug"       -> ExplainsDebug(e)
       [] e.ev = "default"     -> ExplainsDefault(e)
       [] e.ev = "deref"       -> ExplainsDeref(e)
+      [] e.ev = "deref_pinned" -> ~e.rustc_ok     \* DerefMut names the field type: next to a hand-written Deref with another Target rustc must refuse it
       [] OTHER                -> FALSE
 
 TraceInit == l = 1 /\ bad = <<>> /\ pool = NoPool
